@@ -46,6 +46,24 @@ def h18b_quoted_not_split(s):
     assert "".join([t.value for t in items]) == s
 
 
+def h18c_reader_output(s, low, op, fid, wrap):
+    """formula text produced by the reader's own handlers (string literal with arbitrary characters, integer literal,
+    cell reference, any binary operator, any known function) is accepted by the tokenizer and tokenized losslessly"""
+    from specs.c08 import BINARY, FUNCTION_MAP, Node, ref, render
+    assume(op in BINARY)
+    nodes = [Node(AST_node_type=19, AST_string_node_string=s),
+             Node(AST_node_type=17, AST_number_node_decimal_high=0x3040000000000000, AST_number_node_decimal_low=low),
+             Node(AST_node_type=op), ref("B2"), Node(AST_node_type=1)]
+    if wrap:
+        assume(fid in FUNCTION_MAP)
+        nodes.append(Node(AST_node_type=16, AST_function_node_numArgs=1, AST_function_node_index=fid))
+    text = render(nodes)
+    tok = Tokenizer(text)           # TokenizerError here is a violation: the reader emitted this text
+    assert "".join([t.value for t in tok.items]) == text
+    # the string literal is one token
+    assert tok.items[1 if wrap else 0].value.startswith('"')
+
+
 QUOTE_ALPHABET = [(34, 34), (39, 39), (97, 97), (43, 43), (58, 58), (32, 32), (40, 41)]   # " ' a + : space ( )
 
 HARNESSES = [
@@ -68,10 +86,20 @@ def _mkq(n):
                    bounds=f"every string of exactly {n} characters over the alphabet \" ' a + : space ( )")
 
 
+def _mkc(n):
+    from pysym.api import BoolDom, IntDom
+    return Harness(f"H18c-n{n}", h18c_reader_output,
+                   dict(s=StrDom(n), low=IntDom(0, 999), op=IntDom(1, 12), fid=IntDom(1, 40), wrap=BoolDom()),
+                   bounds=f"string literal of {n} arbitrary Unicode characters, integer literal 0..999, every binary operator, "
+                          "function ids 1..40, with/without an enclosing function call; rendered by the real formula handlers",
+                   stubs=["formula nodes = attribute bags (as C08)"])
+
+
 def harnesses(tier):
     ns = [0, 1, 2, 3] if tier == "quick" else [0, 1, 2, 3, 4]
     qs = [4, 5] if tier == "quick" else [4, 5, 6, 7]
-    return [_mk(n) for n in ns] + [_mkq(n) for n in qs]
+    cs = [1] if tier == "quick" else [1, 2]
+    return [_mk(n) for n in ns] + [_mkq(n) for n in qs] + [_mkc(n) for n in cs]
 
 
 HARNESSES = harnesses("thorough")
